@@ -113,6 +113,17 @@ CHECKS = {
    note="Scripted connections abstract pipe fullness at component level; socket-level fairness uses a 10% tolerance.",
    technique="TLA+ spec (Balancer.tla, Delivery.tla) + TLC; histories replayed on the real load balancer; controlled-scheduler schedules; TLC trace validation of socket histories",
    design_ref="DESIGN.md 4.5, 5 (C13)"),
+ "C10": dict(
+   text="TLC checks ReqRep.tla (every API call a process: serialiser / state check / await / state update; 3 concurrent callers "
+        "x 3-4 calls, every interleaving and call sequence): ReqAlternates, RepAlternates, RepliesMatch. Real REQ/REP sockets: "
+        "calling tasks run under the controlled scheduler and two racing calls are held exactly after the state check in every "
+        "order (exactly one may succeed, the loser gets InvalidState, the reply reaches the right requester); every sequence "
+        "of <= 4/5 calls on a real REQ and a real REP (tcp, inproc) is recorded and validated by TLC against the state machines "
+        "(Trace_ReqRep).",
+   note="Interleavings are explored at the hook after the state check and at awaits, not inside lock-protected sections. "
+        "Sequential histories use cooperative peers; timeouts count as failed calls that change nothing.",
+   technique="TLA+ spec (ReqRep.tla) + TLC; controlled-scheduler interleaving of racing calls on real sockets; TLC trace validation of call histories",
+   design_ref="DESIGN.md 4.6, 5 (C10)"),
 }
 
 NA_DEFAULT = "check not built yet (construction in progress; see DESIGN.md section 10)"
